@@ -63,12 +63,14 @@ func c11Files(root string) {
 	w(".rsrc_q.sit", []byte("rsrc"))
 	w("i.dat", []byte("imagebytes!"))
 	w(".info_i.dat", ref.NewInfoFork("i.dat", "JPEG", "GKON", "").Encode()) // stored type differs from what the extension suggests
+	w(c11Long, []byte("long name"))
 	w("p.bin.incomplete", []byte("partia"))
 	w(".info_p.bin", ref.NewInfoFork("p.bin", "BINA", "hDmp", "partial").Encode()) // the partial upload's stored information fork
 	w("d/inner.txt", []byte("in"))
 	w("dé/in2.txt", []byte("in2"))         // a folder whose listed name is not ASCII: everything below it is addressed through Mac Roman path items
 	w("other/q.sit/keep.txt", []byte("k")) // a folder that has the name of a file: moving that file here must fail and change nothing
 	_ = os.MkdirAll(filepath.Join(root, "e"), 0755)
+	w("e/p.bin", []byte("namesake of the partial upload in the root"))
 }
 
 // model: the expected real tree, path -> kind/content
@@ -226,8 +228,11 @@ func (m *c11Model) dangling(p string) bool {
 	return strings.HasPrefix(v, "-> $ROOT/") && !m.exists(strings.TrimPrefix(v, "-> $ROOT/"))
 }
 
+// c11Long is a file name of 245 bytes: the file and its .info_ side file fit in a file name, "<name>.incomplete" does not.
+var c11Long = strings.Repeat("n", 241) + ".txt"
+
 func (x *c11World) apply(op string) bool {
-	p := strings.Split(op, "|")
+	p := strings.Split(strings.ReplaceAll(op, "L245", c11Long), "|")
 	m := x.m
 	if len(p) > 1 && m.dangling(p[1]) {
 		return false
@@ -316,6 +321,13 @@ func (x *c11World) apply(op string) bool {
 				return false
 			}
 			r = x.req(ref.Tx{Type: ref.TNewFolder, Fields: []ref.Fld{ref.F(ref.FFileName, macRoman(name))}})
+		case "alias":
+			// p[2] is a file in a folder, named like the partial upload in the root; its alias would land on that name
+			src := p[2]
+			if !m.exists(src) || filepath.Base(src) != name || m.exists(name) || !m.exists(name+".incomplete") || dirOf(src) == "" {
+				return false
+			}
+			r = x.req(ref.Tx{Type: ref.TMakeFileAlias, Fields: append(pathFields(dirOf(src)), ref.F(ref.FFileName, macRoman(name)), ref.F(ref.FFileNewPath, []byte{0, 0}))})
 		case "move":
 			// p[2] is a file in a folder, named like the partial upload in the root
 			src := p[2]
@@ -621,7 +633,7 @@ func c11Alphabet() []string {
 	a = append(a, "del|p.bin", "mkdir|dé/new", "mkdir|dé/in2.txt", "del|dé/in2.txt", "rename|dé/in2.txt|r2.txt", "move|a.txt|dé", "move|dé/in2.txt|e", "comment|dé/in2.txt", "alias|a.txt|dé", "rename|dé|dd", "move|dé|e", "del|dé", "mkdir|zé/sub")
 	a = append(a, "mkdir|new", "mkdir|a.txt", "mkdir|d", "mkdir|d/new", "mkdir|zé", "alias|a.txt|e", "alias|d|e", "alias|q.sit|d",
 		"rename|n1.txt|a.zip", "rename|a.txt|a.zip", "rename|i.dat|i.txt",
-		"movefail|q.sit|other", "renamelong|d", "renamelong|a.txt", "ontopartial|rename|i.dat|p.bin", "ontopartial|mkdir||p.bin", "rename|e/a.txt|p.bin", "ontopartial|move|e/p.bin|p.bin", "renamefailc|a.txt|q.sit", "renamefailc|d|e", "renamefail|q.sit|d", "renamefail|a.txt|e", "renamefail|i.dat|d", "uncomment|q.sit", "uncomment|a.txt", "uncomment|d", "del|n1.txt", "move|n1.txt|e", "comment|n1.txt", "del|dd", "rename|dd|d", "mkdir|dd", "comment|e/a.txt", "del|e/a.txt", "rename|e/a.txt|r.txt")
+		"movefail|q.sit|other", "comment|L245", "move|L245|e", "del|L245", "rename|L245|short.txt", "ontopartial|alias|e/p.bin|p.bin", "renamelong|d", "renamelong|a.txt", "ontopartial|rename|i.dat|p.bin", "ontopartial|mkdir||p.bin", "rename|e/a.txt|p.bin", "ontopartial|move|e/p.bin|p.bin", "renamefailc|a.txt|q.sit", "renamefailc|d|e", "renamefail|q.sit|d", "renamefail|a.txt|e", "renamefail|i.dat|d", "uncomment|q.sit", "uncomment|a.txt", "uncomment|d", "del|n1.txt", "move|n1.txt|e", "comment|n1.txt", "del|dd", "rename|dd|d", "mkdir|dd", "comment|e/a.txt", "del|e/a.txt", "rename|e/a.txt|r.txt")
 	return a
 }
 
